@@ -272,7 +272,8 @@ Qed.
 
 Lemma sweep_idle_frame c c0 ws : forall clock ws' clock',
   c0 <= clock -> sweep_idle c ws clock = (ws', clock') ->
-  Forall2 (wframe c0) ws ws' /\ clock <= clock' /  ((forall w, In w ws -> w_updated w <= clock) -> forall w, In w ws' -> w_updated w <= clock').
+  Forall2 (wframe c0) ws ws' /\ clock <= clock' /\
+  ((forall w, In w ws -> w_updated w <= clock) -> forall w, In w ws' -> w_updated w <= clock').
 Proof.
   induction ws as [|w r IH]; intros clock ws' clock' Hc; cbn [sweep_idle].
   - intros H; injection H as <- <-. split; [constructor|]. split; [lia|]. intros _ w [].
@@ -283,7 +284,8 @@ Proof.
     + destruct (shutdown_if_idle c w clock) as [[w1 c1] b1] eqn:E1.
       destruct (sweep_idle c r c1) as [r' k] eqn:E. intros H; injection H as <- <-.
       apply shutdown_if_idle_frame in E1. destruct E1 as (F1 & L1 & U1).
-      destruct (IH _ _ _ ltac:(lia) E) as (F & L & U). split; [constructor; [eapply wframe_mono; [exact Hc|exact F1]|exact F]|].
+      assert (Hc1 : c0 <= c1) by lia.
+      destruct (IH _ _ _ Hc1 E) as (F & L & U). split; [constructor; [eapply wframe_mono; [exact Hc|exact F1]|exact F]|].
       split; [lia|]. intros S x [<-|Hx].
       * specialize (U1 (S w (or_introl eq_refl))). lia.
       * apply U; [intros y Hy; specialize (S y (or_intror Hy)); lia|exact Hx].
@@ -291,6 +293,6 @@ Qed.
 Lemma pool_sweep_frame c p : pframe p (pool_sweep c p).
 Proof.
   unfold pool_sweep. destruct (sweep_idle c (p_workers p) (p_clock p)) as [ws clock] eqn:E.
-  destruct (sweep_idle_frame c (p_clock p) _ _ _ _ ltac:(lia) E) as (F & L & U).
+  destruct (sweep_idle_frame c (p_clock p) _ _ _ _ (Z.le_refl _) E) as (F & L & U).
   split; [exact L|]. split; [exact F|]. intros S. exact (U S).
 Qed.
